@@ -329,7 +329,7 @@ OBLIGATIONS = {
     'IndexHeader::new': ['C09'],
     'IndexEntry::new': ['C09'],
     'Header::create_region_tag': ['C09'],
-    'Header::from_entries': ['C09', 'C16'],
+    'Header::from_entries': ['C09', 'C16', 'C06'],
     'lemma_layout_step': ['C09'],
     'lemma_layout_bytes_len': ['C09'],
     'lemma_layout_mono': ['C09'],
